@@ -513,7 +513,7 @@ func (c *Ctx) runC17Case(bt *Batch, stream string, i int, tb *c17table, suspects
 func runC17(c *Ctx) {
 	// decimal arithmetic and printing (shared stream): StringFixed, Div, String against shopspring
 	if !c.Replay || c.OnlyStr == "dec" {
-		runDecStream(c, c.N(4000, 100000))
+		runDecStream(c, c.N(4000, 200000))
 	}
 	bt := c.NewBatch()
 	bt.Limit = 4000
@@ -531,7 +531,7 @@ func runC17(c *Ctx) {
 	var suspects []c17suspect
 
 	// ---- stream "numbers": one-column tables full of amounts, every digits value, -k on/off
-	nNum := c.N(3000, 120000)
+	nNum := c.N(12000, 300000)
 	for i := 0; i < nNum; i++ {
 		if !c.Want("numbers", i) {
 			continue
@@ -559,7 +559,7 @@ func runC17(c *Ctx) {
 	}
 
 	// ---- stream "table": balance-shaped tables
-	nTab := c.N(5000, 250000)
+	nTab := c.N(20000, 500000)
 	for i := 0; i < nTab; i++ {
 		if !c.Want("table", i) {
 			continue
@@ -577,7 +577,7 @@ func runC17(c *Ctx) {
 	}
 
 	// ---- stream "malformed": short / long / empty rows, zero-width tables, negative indents, line breaks
-	nMal := c.N(2000, 60000)
+	nMal := c.N(5000, 100000)
 	for i := 0; i < nMal; i++ {
 		if !c.Want("malformed", i) {
 			continue
@@ -734,7 +734,7 @@ func runC17Balance(c *Ctx, bt *Batch) {
 		c.Notes = append(c.Notes, "no knut binary: balance stream skipped")
 		return
 	}
-	n := c.N(150, 3000)
+	n := c.N(300, 4000)
 	dir := filepath.Join(c.WorkDir, "c17")
 	os.MkdirAll(dir, 0o755)
 	ran := 0
